@@ -81,14 +81,14 @@ class Recorder:
     def __init__(self, chk, P):
         self.P = P
         self.hook = hasattr(P, "_verif_trace")
-        self.path = str(chk.scratch / f"trace_{id(self)}")
+        self.path = str(chk.scratch / "trace")     # shared by all sessions; records carry the daemon pid
         self.recs = []       # (kind, text) kinds: C W R Z E
         self.pid = None
         self._pos = 0
 
     def arm(self):
         if self.hook:
-            open(self.path, "w").close()
+            open(self.path, "a").close()
             os.environ["PKGCORE_VERIF_TRACE"] = self.path
 
     def disarm(self):
@@ -182,9 +182,11 @@ class Session:
         self.requests = 0
 
     def start(self):
+        """spawn the daemon (called from a worker thread: all daemons of a run start concurrently)"""
         P = self.P
         self.rec.arm()
         fds = {1: self.devnull.fileno(), 2: self.devnull.fileno()}
+        guard = lambda secs, fn, *a, **kw: fn(*a, **kw)  # noqa: E731 - no alarm outside the main thread
         if self.rec.hook:
             self.ebp = guard(90, P.EbuildProcessor, False, False, fd_pipes=fds)
         else:
@@ -205,6 +207,9 @@ class Session:
             self.ebp = guard(90, Tapped, False, False, fd_pipes=fds)
         self.rec.pid = self.ebp.pid
         self.daemon_pid = self.ebp.pid
+        return self
+
+    def begin(self):
         self.rec.mark("E", "1")
         return self
 
@@ -236,11 +241,16 @@ class Session:
         self.rec.recs.append(("E", res))
         return v
 
+    def probe(self):
+        """is_responsive without its 10 s alarm (the machine may be heavily loaded)"""
+        self.ebp.write("alive")
+        return self.ebp.expect("yep!")
+
     def alive_probe(self, after):
         """oracle: in a live session the reply to `alive` is `yep!` (nothing stale in the channel)"""
         if self.ebp is None or not self.ebp.pid:
             return
-        v = self.op("a", lambda: self.ebp.is_responsive)
+        v = self.op("a", self.probe)
         if v is not True:
             self.oracle.append({"what": "after %s the next request (alive) was not answered by its own reply "
                                         "(yep!): the channel is desynchronised" % after,
@@ -249,7 +259,6 @@ class Session:
 
     def stop(self):
         self.rec.pull()
-        self.rec.disarm()
         ebp, self.ebp = self.ebp, None
         try:
             if ebp is not None and ebp.pid:
@@ -325,9 +334,25 @@ def real_sessions(chk, P):
     ec = repo.eclass_cache
     pkg = lambda n: repo._repo.package_class("cat", n, "1")  # noqa: E731
     out = []
+    names = ["main", "die", "unknown-eclass", "unknown-command", "phase-fails", "signal-t", "signal-i"]
+    if chk.thorough or chk.fingerprint_changed:
+        names += ["phase-fails-logging", "preload-failed", "env-failure"]
+    import threading
+    pool = {n: Session(chk, P, n) for n in names}
+    ths = [threading.Thread(target=s.start, daemon=True) for s in pool.values()]
+    for t in ths:
+        t.start()
+    deadline = time.time() + 240
+    for t in ths:
+        t.join(max(1, deadline - time.time()))
+    dead = [n for n, s in pool.items() if s.ebp is None]
+    if dead:
+        for s in pool.values():
+            s.stop()
+        raise RuntimeError(f"ebuild daemons did not start within 240 s: {dead}")
 
     def session(name):
-        s = Session(chk, P, name).start()
+        s = pool[name].begin()
         out.append((name, s))
         return s
 
@@ -343,8 +368,20 @@ def real_sessions(chk, P):
         def __init__(self, names):
             self.eclasses = {n: ec.eclasses[n] for n in names}
 
+    def preload_failed(s):
+        # a broken eclass: "preload_eclass failed" is the (unaccepted) reply to that very request
+        s.op("p1", lambda: s.ebp.preload_eclasses(OneEclass(["bar", "broken", "foo"]), async_req=False))
+        s.alive_probe("a failed preload")
+
+    def env_failure(s):
+        # failing env transfer with async preload expects outstanding; the channel must stay aligned
+        s.op("p0", lambda: s.ebp.preload_eclasses(OneEclass(["bar", "broken"]), async_req=True))
+        s.op("r0", lambda: s.ebp.run_phase("setup", {"A-B": "x"}, tmpdir=None))
+        s.alive_probe("a failed env transfer in run_phase")
+        s.alive_probe("a failed env transfer in run_phase (second probe)")
+
     # 1. metadata regen with inherit chains, caching on: async preloads stay outstanding between calls
-    s = session("metadata")
+    s = session("main")
     try:
         s.ebp.allow_eclass_caching()
         nrounds = chk.n(1, 3)
@@ -360,25 +397,34 @@ def real_sessions(chk, P):
             if v is not True:
                 s.oracle.append({"what": "clear_preloaded_eclasses() on a responsive daemon returned %r and "
                                          "shut the processor down: the reply literal python expects is not the one "
-                                         "the daemon sends" % (v,), "session": "metadata",
+                                         "the daemon sends" % (v,), "session": "main",
                                  "last_lines": [f"{k} {t[:80]}" for k, t in s.rec.recs[-8:]]})
                 break
             keys(s, "e")
         if s.ebp.pid:
             s.alive_probe("clear_preloaded_eclasses")
+            preload_failed(s)
+            env_failure(s)
+            keys(s, "b")
             s.op("s", lambda: s.ebp.shutdown_processor(), truth=lambda v: True)
     finally:
         s.stop()
 
-    # 2. a broken eclass: preload_eclass failed is the (unaccepted) reply to that very request
-    s = session("preload-failed")
-    try:
-        v = s.op("p1", lambda: s.ebp.preload_eclasses(OneEclass(["bar", "broken", "foo"]), async_req=False))
-        s.alive_probe("a failed preload")
-        keys(s, "b")
-        s.op("s", lambda: s.ebp.shutdown_processor(), truth=lambda v: True)
-    finally:
-        s.stop()
+    if "preload-failed" in pool:
+        s = session("preload-failed")
+        try:
+            preload_failed(s)
+            keys(s, "b")
+            s.op("s", lambda: s.ebp.shutdown_processor(), truth=lambda v: True)
+        finally:
+            s.stop()
+    if "env-failure" in pool:
+        s = session("env-failure")
+        try:
+            env_failure(s)
+            s.op("s", lambda: s.ebp.shutdown_processor(), truth=lambda v: True)
+        finally:
+            s.stop()
 
     # 3. die at global scope
     s = session("die")
@@ -401,25 +447,17 @@ def real_sessions(chk, P):
     s = session("unknown-command")
     try:
         s.op("x", lambda: (s.ebp.write("frobnicate now", flush=False), True)[1])
-        v = s.op("a", lambda: s.ebp.is_responsive)
+        v = s.op("a", s.probe)
         if v != Err("EbdError") or s.ebp.pid is not None:
             s.oracle.append({"what": "an unknown command did not end the session with EbdError", "got": repr(v),
                              "session": "unknown-command"})
     finally:
         s.stop()
 
-    # 6. failing env transfer, then the channel must still be aligned
-    s = session("env-failure")
-    try:
-        s.op("r0", lambda: s.ebp.run_phase("setup", {"A-B": "x"}, tmpdir=None))
-        s.alive_probe("a failed env transfer in run_phase")
-        s.alive_probe("a failed env transfer in run_phase (second probe)")
-        s.op("s", lambda: s.ebp.shutdown_processor(), truth=lambda v: True)
-    finally:
-        s.stop()
-
     # 7. a phase that fails / dies, with and without logging
     for lg in (False, True):
+        if "phase-fails" + ("-logging" if lg else "") not in pool:
+            continue
         s = session("phase-fails" + ("-logging" if lg else ""))
         try:
             T = str(chk.scratch / f"T{int(lg)}")
@@ -449,16 +487,24 @@ def real_sessions(chk, P):
 
 
 # ----------------------------------------------------------------------------- main
+STRUCTURAL = (b"Ryep!", b"Rpreload_eclass", b"Rphases", b"Rmetadata_path_received", b"Rrequest_inherit",
+              b"Renv_", b"Rclear_preloaded", b"Rreceive_env")
+
+
 def mutate(trace: bytes, rng):
-    """traces that must be rejected: drop / duplicate / swap reply lines"""
+    """traces that must be rejected: a structural line (reply / request / phase end — not one of the
+    `key` lines, any number of which is a behaviour) dropped or duplicated, two different adjacent
+    ones swapped"""
     recs = trace.split(b"\n")
-    ridx = [i for i, r in enumerate(recs) if r[:1] == b"R"]
+    ridx = [i for i, r in enumerate(recs) if r.startswith(STRUCTURAL) and i > 4]
     out = []
-    if len(ridx) >= 4:
-        i = rng.choice(ridx[2:])
+    if ridx:
+        i = rng.choice(ridx)
         out.append(("drop", b"\n".join(recs[:i] + recs[i + 1:])))
+        i = rng.choice(ridx)
         out.append(("dup", b"\n".join(recs[:i] + [recs[i]] + recs[i:])))
-        pairs = [(a, b) for a, b in zip(ridx, ridx[1:]) if b == a + 1 and recs[a] != recs[b]]
+        pairs = [(a, a + 1) for a in ridx if a + 1 < len(recs) and recs[a + 1][:1] == b"R"
+                 and recs[a + 1].split(b" ")[0] != recs[a].split(b" ")[0] and not recs[a + 1].startswith(b"Rkey")]
         if pairs:
             a, b = rng.choice(pairs)
             sw = list(recs)
